@@ -90,6 +90,16 @@ def main():
                         if ex["bound"] >= 2:
                             for j in range(0, n.get(second, 0) + 1, ex.get("stride2", stride * 4)):
                                 plans.append([[first, i], [second, j], [first, -1]])
+            if len(tids) >= 3:
+                # one thread has already finished a complete round (its captures released) before the other two interleave
+                for x in tids:
+                    rest = [t for t in tids if t != x]
+                    for first in rest:
+                        for second in rest:
+                            if second == first:
+                                continue
+                            for i in range(0, n.get(first, 0) + 1, stride):
+                                plans.append([[x, -1], [first, i], [second, -1]])
             if ex.get("max") and len(plans) > ex["max"]:
                 import random
                 rng = random.Random(ex.get("seed", 0))
